@@ -104,6 +104,16 @@ pub fn run(ctx: &mut Ctx) -> (String, Value, Vec<String>) {
             if n != 0 {
                 ctx.violation("arrival::ApproximatedPoisson::number_arrivals#nonzero-at-zero", &format!("delta = 0 gives {n}"), "poisson", case);
             }
+            // the pmf of an empty interval is the point mass at 0
+            for k in 0..3u64 {
+                evals += 1;
+                let p = Poisson { rate }.arrival_probability(d(0), k as usize);
+                let want = if k == 0 { 1.0 } else { 0.0 };
+                if !((p - want).abs() <= 1e-12) {
+                    ctx.violation("arrival::Poisson::arrival_probability#not-the-pmf", &format!("rate {rate} delta 0 k {k}: {p:e}, Poisson pmf is {want}"), "poisson-pmf", json!({"rate": rate, "delta": 0, "k": k}));
+                    break;
+                }
+            }
             continue;
         }
         if mean >= 1.0 {
@@ -143,6 +153,22 @@ pub fn run(ctx: &mut Ctx) -> (String, Value, Vec<String>) {
         }
         if samples.len() < 4 && (mean == 3.0 || mean == 130.0) && eps == 1e-3 {
             samples.push(json!({"rate": rate, "epsilon": eps, "delta": delta, "mean": mean, "returned": n, "cdf_at_returned": cdf[n as usize]}));
+        }
+    }
+    // a source with rate 0 never releases anything: the quantile is 0 for every interval
+    for eps in [0.5, 1e-3, 1e-9] {
+        for delta in [1u64, 10, 1000] {
+            evals += 1;
+            let case = json!({"rate": 0.0, "epsilon": eps, "delta": delta});
+            match with_timeout(5.0, move || ApproximatedPoisson::new(0.0, eps).number_arrivals(d(delta))) {
+                Ok(0) => {}
+                Ok(n) => ctx.violation("arrival::ApproximatedPoisson::number_arrivals#above-quantile", &format!("rate 0 eps {eps} delta {delta}: returned {n}, nothing ever arrives"), "poisson", case),
+                Err(Some(e)) => ctx.violation("arrival::ApproximatedPoisson::number_arrivals#panic", &format!("rate 0 eps {eps} delta {delta}: panic {e}"), "poisson", case),
+                Err(None) => {
+                    ctx.violation("arrival::ApproximatedPoisson::number_arrivals#does-not-terminate", &format!("rate 0 eps {eps} delta {delta}: no answer within the time cap"), "poisson", case);
+                    break;
+                }
+            }
         }
     }
     let cov = json!({
